@@ -10,6 +10,7 @@
 #include <cstdlib>
 #include <memory>
 #include <unistd.h>
+#include <cstdint>
 
 StatusPage *g_status = nullptr;
 
@@ -351,10 +352,22 @@ struct Executor {
         status(&sc, "query", false);
         int complete = ad_is_complete(sc.h, sc.s->id);
         void **tab = (void **)malloc(sizeof(void *) * (sc.k ? sc.k : 1));   // exact-size heap table of k pointers
-        for (uint32_t i = 0; i < sc.k; i++) tab[i] = nullptr;
+        // the table is "filled by the library": it arrives holding stale, non-NULL garbage (a receiver that reuses one table
+        // for consecutive blocks), and every one of the k entries must have been written when the call returns OK
+        void *const stale = (void *)(uintptr_t)0x5a5a5a5a5a5a5a50ULL;
+        for (uint32_t i = 0; i < sc.k; i++) tab[i] = stale;
         int tst = ad_get_tab(sc.h, tab, sc.s->id);
         status_done();
         res.lib_calls += 2;
+        if (tst == 0) {
+            for (uint32_t i = 0; i < sc.k; i++)
+                if (tab[i] == stale) {
+                    std::vector<const char *> props{twod ? "C16" : "C10"};
+                    if (rs) props.push_back("C02");
+                    viol(props, "status", std::string("source-table-entry-not-written:codec=") + cn(sc), "entry " + std::to_string(i), &sc);
+                    tab[i] = nullptr;
+                }
+        } else for (uint32_t i = 0; i < sc.k; i++) tab[i] = nullptr;
         Hash64 extra;
         uint32_t navail = 0;
         std::vector<uint32_t> newly;
